@@ -341,9 +341,23 @@ impl GraphEngine {
     }
 
     pub fn search_vector(&self, query: &[f32], k: usize) -> Result<Vec<(InternalNodeId, f32)>> {
-        let mut pager = self.pager.write().unwrap();
-        let mut idx = self.vector_index.lock().unwrap();
-        idx.search(&mut *pager, query, k)
+        if k == 0 {
+            return Ok(Vec::new());
+        }
+        // Nothing removes a deleted node from the index, so take every candidate of the
+        // base-layer search (the work is the same for any `k`) and drop the deleted ones
+        // before cutting to `k`.
+        let mut hits = {
+            let mut pager = self.pager.write().unwrap();
+            let mut idx = self.vector_index.lock().unwrap();
+            idx.search(&mut *pager, query, usize::MAX)?
+        };
+        let runs = self.published_runs.read().unwrap().clone();
+        let tombstoned_in_runs = crate::read_path_tombstones::collect_tombstoned_nodes(&runs);
+        let idmap = self.idmap.lock().unwrap();
+        hits.retain(|(id, _)| !tombstoned_in_runs.contains(id) && !idmap.is_tombstoned(*id));
+        hits.truncate(k);
+        Ok(hits)
     }
 
     pub fn scan_i2e_records(&self) -> Vec<I2eRecord> {
